@@ -159,9 +159,9 @@ CLAIMED = {
              "and of every update_fw call form (single id, list, unknown id, missing firmware, "
              "non-integer type, same firmware) with its prescribed effect on the stores and the "
              "reboot flags",
-        note="a block request for another existing firmware and a block index beyond the image "
-             "are not prescribed by the statement: the reference follows the implementation there; "
-             "load_fw stubbed (Intel-HEX not encoded); two nodes, one image"),
+        note="a block request for a firmware other than the scheduled one and a block index beyond "
+             "the image are not prescribed by the statement: for those inputs only 'no exception' "
+             "is checked; load_fw stubbed (Intel-HEX not encoded); two nodes, one image"),
     "C19": dict(
         text="symbolic execution of the real data_received / pyserial Packetizer framing over a "
              "symbolic byte stream cut at symbolic positions (lines delivered == split of the whole "
